@@ -4,6 +4,7 @@ import (
 	"fmt"
 	"strings"
 	"time"
+	"verif/corpus"
 
 	"verif/der"
 	"verif/gen"
@@ -580,9 +581,53 @@ var bigKinds = []struct {
 
 var bigSizes = []int{120, 300, 700, 1500}
 
-func bigSize(c *mon.Ctx) int { return len(bigKinds) * len(bigSizes) }
+var bigCRLSizes = []int{300, 4097, 5000}
+
+func bigSize(c *mon.Ctx) int { return len(bigKinds)*len(bigSizes) + len(bigCRLSizes)*4 }
+
+// bigCRL: thousands of entries whose serial numbers are NOT in ascending order, with different kinds of offending
+// reason codes (explicit unspecified(0), the unassigned 7, removeFromCRL(8), out-of-range 11) at positions that a
+// re-ordering of the list would exchange, and a few repeated serial numbers
+func bigCRL(n, variant int) (*mon.Obj, string) {
+	tu := gen.D(2024, 3, 1)
+	s := gen.BasicCRL(tu)
+	s.Revoked = nil
+	for i := 0; i < n; i++ {
+		var serial int64
+		switch variant % 2 {
+		case 0:
+			serial = int64(1000000 - i*7) // descending
+		default:
+			serial = int64((uint64(i)*2654435761)%1000003 + 1) // scattered
+		}
+		var exts []*der.Node
+		switch {
+		case i == 3:
+			exts = []*der.Node{gen.ExtReason(0)}
+		case i == n-2:
+			exts = []*der.Node{gen.ExtReason(7)}
+		case i == n/2:
+			exts = []*der.Node{gen.ExtReason(11)}
+		case i == n/3 && variant >= 2:
+			exts = []*der.Node{gen.ExtReason(8)}
+		case i%5 == 0:
+			exts = []*der.Node{gen.ExtReason(int64(1 + i%6))}
+		}
+		if variant >= 2 && (i == 10 || i == n-10) {
+			serial = 424242 // the same serial twice, far apart
+		}
+		s.Revoked = append(s.Revoked, gen.Revoked(serial, tu.Add(-time.Duration(i+1)*time.Minute), exts...))
+	}
+	how := fmt.Sprintf("CRL with %d entries, serial numbers not ascending (variant %d)", n, variant)
+	o, _ := mon.ParseObj(corpus.CRL, "gen/bigcrl/"+how, s.DER())
+	return o, how
+}
 
 func bigCase(c *mon.Ctx, k int) (*mon.Obj, string) {
+	if k >= len(bigKinds)*len(bigSizes) {
+		k -= len(bigKinds) * len(bigSizes)
+		return bigCRL(bigCRLSizes[k%len(bigCRLSizes)], k/len(bigCRLSizes))
+	}
 	kd := bigKinds[k%len(bigKinds)]
 	n := bigSizes[k/len(bigKinds)%len(bigSizes)]
 	var gns []*der.Node
